@@ -22,6 +22,12 @@ GRIDS = {
         True,
     ),
     "G8": ([1e-4, 1e-3, 1e-2, 0.1, 0.25, 0.5, 0.75, 1.0], 3, True),
+    # exotic interpolation set-ups: degree 1, degree 5, very uneven spacing (log and linear), minimal number of nodes for the degree
+    "D1": ([1e-3, 1e-2, 0.05, 0.2, 0.5, 0.8, 1.0], 1, True),
+    "D5": ([1e-4, 1e-3, 1e-2, 0.05, 0.1, 0.2, 0.4, 0.6, 0.8, 1.0], 5, True),
+    "U7": ([1e-3, 2e-3, 0.3, 0.31, 0.5, 0.97, 1.0], 2, True),
+    "UL6": ([0.01, 0.02, 0.5, 0.55, 0.9, 1.0], 3, False),
+    "M4": ([0.01, 0.1, 0.5, 1.0], 3, True),
 }
 
 
